@@ -152,7 +152,6 @@ func (f *cfile) Close() error {
 // ---------------------------------------------------------------------------
 // goroutine attribution for the global hook
 
-var reGoHeader = regexp.MustCompile(`^goroutine (\d+) \[`)
 var reCreatedIn = regexp.MustCompile(`(?m)^created by (\S+) in goroutine (\d+)$`)
 
 func curGoid() int64 {
@@ -657,7 +656,7 @@ func runCase(r *mon.Run, i int, tmp string) (res caseResult) {
 	}
 
 	t0 := time.Now()
-	ok := mon.Watchdog(180*time.Second, func() {
+	ok := mon.Watchdog(300*time.Second, func() {
 		for ci := 0; ci < p.clients; ci++ {
 			cliWG.Add(1)
 			go client(ci, rand.New(rand.NewSource(rnd.Int63())))
@@ -666,7 +665,7 @@ func runCase(r *mon.Run, i int, tmp string) (res caseResult) {
 		srvWG.Wait() // every ServeConn has returned: no response is being written any more
 	})
 	if !ok {
-		res.inconclusive = fmt.Sprintf("case %d (%+v): clients/servers did not finish within 180s\n%s", i, p, mon.Stacks())
+		res.inconclusive = fmt.Sprintf("case %d (%+v): clients/servers did not finish within 300s\n%s", i, p, mon.Stacks())
 		cs.closeStop()
 		return res
 	}
@@ -698,7 +697,7 @@ func runCase(r *mon.Run, i int, tmp string) (res caseResult) {
 		n, _ := fdsUnder(root)
 		return n
 	}
-	deadline := time.Now().Add(60 * time.Second)
+	deadline := time.Now().Add(120 * time.Second)
 	for spin := 0; ; spin++ {
 		if p.stopMode == "gc" {
 			runtime.GC()
@@ -729,7 +728,7 @@ func runCase(r *mon.Run, i int, tmp string) (res caseResult) {
 				break
 			}
 			if time.Now().After(deadline) {
-				res.inconclusive = fmt.Sprintf("case %d (%+v): %d handles still open after 60s while the cleaner goroutine is alive=%v releasing=%v\n%s", i, p, openNow(), alive, releasing, dump)
+				res.inconclusive = fmt.Sprintf("case %d (%+v): %d handles still open after 120s while the cleaner goroutine is alive=%v releasing=%v\n%s", i, p, openNow(), alive, releasing, dump)
 				break
 			}
 		}
@@ -772,7 +771,7 @@ func TestC25(t *testing.T) {
 	fasthttp.VerifSetPointHook(hook)
 	defer fasthttp.VerifSetPointHook(nil)
 
-	n := r.N(128, 2500)
+	n := r.N(128, 1500)
 	var mu sync.Mutex
 	sigs := map[uint64]struct{}{}
 	bigrams := map[string]int{}
@@ -854,5 +853,4 @@ func TestC25(t *testing.T) {
 		r.Require("reach_fs.dec.unlocked", n)
 		r.Require("bodies_held_across_cleaner_tick", n/4)
 	}
-	_ = reGoHeader
 }
